@@ -111,6 +111,12 @@ theorem server_state_unchanged (servers : Registry) (before after : List (Msg ×
     serve servers (before ++ after) = serve servers before ++ serve servers after :=
   serve_append servers before after hb
 
+/-- the driver replays the real request sequence of a connection through `serveStep`, one request per line;
+    that is the same function as `serve` (so `C11_sequence` speaks about what the correspondence ties) -/
+theorem serve_is_replayed (servers : Registry) (l : List (Msg × HandleResult)) :
+    serve servers l = serveInc servers true l :=
+  serve_eq_serveInc servers l
+
 /-- outside the quantifier: these end the receive loop instead of being answered -/
 theorem not_answered_examples :
     react [(10, false)] { mode := 0, protocol := 10, method := some 1, callId := 7, error := -1, body := [] }
